@@ -55,6 +55,51 @@ int main (void)
       printf ("ok "); st (); printf (" size=%zu\n", pv->size);
       continue;
     }
+    if (!strcmp (op, "nospace") && l.n == 9)
+    { /* nospace <stage> <addSize> <addKind 0 other|1 host-unparsed|2 host-parsed> <optHdr> <hostValLen|-> <uri> <methodOther> <methodLen>
+         white-box call of get_no_space_err_status_code on a fabricated connection */
+      uint64_t stg, asz, akind, opt, uri, mo, ml, hv = 0; int have_hv = strcmp (l.w[5], "-");
+      struct MHD_Connection cc; struct MHD_Daemon dd; struct MHD_HTTP_Req_Header hh;
+      char *rbuf, *add = NULL, *meth; unsigned int code;
+      if (!(lp_u64 (l.w[1], &stg) && lp_u64 (l.w[2], &asz) && lp_u64 (l.w[3], &akind) && lp_u64 (l.w[4], &opt)
+            && (!have_hv || lp_u64 (l.w[5], &hv)) && lp_u64 (l.w[6], &uri) && lp_u64 (l.w[7], &mo) && lp_u64 (l.w[8], &ml))
+          || asz > (1u << 20) || opt > (1u << 20) || ml > (1u << 20) || hv > (1u << 20)
+          || (akind && asz < 5) || stg < MHD_PROC_RECV_HEADERS || stg > MHD_PROC_RECV_FOOTERS)
+      { puts ("bad-op"); continue; }
+      memset (&cc, 0, sizeof(cc)); memset (&dd, 0, sizeof(dd)); memset (&hh, 0, sizeof(hh));
+      cc.daemon = &dd;
+      rbuf = (char *) calloc (1, (size_t) (asz + opt + 16));
+      meth = (char *) malloc ((size_t) ml + 1); memset (meth, 'M', (size_t) ml); meth[ml] = 0;
+      cc.rq.method = meth; cc.rq.http_mthd = mo ? MHD_HTTP_MTHD_OTHER : MHD_HTTP_MTHD_GET;
+      cc.rq.req_target_len = (size_t) uri;
+      cc.read_buffer = rbuf;
+      if (0 != asz)
+      {
+        add = rbuf; memset (add, 'x', (size_t) asz);
+        if (akind) { memcpy (add, "Host", 4); add[4] = (2 == akind) ? 0 : ':'; }
+        else memcpy (add, "X-Ot", asz < 4 ? (size_t) asz : 4);
+      }
+      if (1 == akind)
+      { /* raw, unparsed line: it is exactly the content of the read buffer while headers are being received */
+        cc.state = MHD_CONNECTION_REQ_HEADERS_RECEIVING; cc.read_buffer_offset = (size_t) asz;
+        cc.rq.field_lines.start = rbuf + asz - (size_t) opt; /* only used for pointer arithmetic */
+      }
+      else
+      { cc.state = MHD_CONNECTION_BODY_RECEIVING; cc.rq.field_lines.size = (size_t) opt; cc.read_buffer_offset = 0; }
+      if (have_hv)
+      {
+        static char hname[] = "Host"; char *hval = (char *) malloc ((size_t) hv + 1); memset (hval, 'h', (size_t) hv); hval[hv] = 0;
+        hh.header = hname; hh.header_size = 4; hh.value = hval; hh.value_size = (size_t) hv; hh.kind = MHD_HEADER_KIND;
+        cc.rq.headers_received = &hh; cc.rq.headers_received_tail = &hh;
+        code = get_no_space_err_status_code (&cc, (enum MHD_ProcRecvDataStage) stg, add, (size_t) asz);
+        free (hval);
+      }
+      else
+        code = get_no_space_err_status_code (&cc, (enum MHD_ProcRecvDataStage) stg, add, (size_t) asz);
+      printf ("status=%u\n", code);
+      free (rbuf); free (meth);
+      continue;
+    }
     if (NULL == con.pool) { puts ("bad-op"); continue; }
     {
       struct MemoryPoolView *pv = (struct MemoryPoolView *) con.pool;
